@@ -72,9 +72,11 @@ impl Node {
 }
 impl PathBuf {
     #[verifier::external_body]
+    pub fn new() -> PathBuf { unimplemented!() }
+    #[verifier::external_body]
     pub fn join(&self, n: NameR) -> PathBuf { unimplemented!() }
     #[verifier::external_body]
-    pub fn clone(&self) -> PathBuf { unimplemented!() }
+    pub fn clone(&self) -> (r: PathBuf) ensures r == *self, { unimplemented!() }
 }
 // a visitor (RepairState, the rewrite visitor ...): arbitrary answers.  Ghost bookkeeping: `reported` remembers whether it
 // ever asked for a change; `dirty` is a stack with one flag per tree level being processed -- set when an answer at that
@@ -147,13 +149,6 @@ impl Node {
     #[verifier::external_body]
     pub fn is_dir(&self) -> (r: bool) ensures r == (self.node_type is Dir), { unimplemented!() }
 }
-pub struct SummaryMap { pub _opaque: u64 }
-impl SummaryMap {
-    // self.summary.entry(id).or_default().update(&node): statistics only
-    #[verifier::external_body]
-    pub fn vupdate(&mut self, id: TreeId, node: &Node) { unimplemented!() }
-}
-pub struct RewriteVisitor { pub overrides: Override, pub node_modification: NodeModification, pub all_trees: bool, pub summary: SummaryMap }
 
 // ---- repair index: PackChecker::check_pack (what happens to the entries of one index file) ----
 #[derive(Clone, Copy, PartialEq, Eq, Structural)]
@@ -202,3 +197,35 @@ pub open spec fn file_is_sound(f: IndexFile, listing: Map<PackId, u32>) -> bool 
 }
 #[verifier::external_body]
 pub fn vclone_ipack(p: &IndexPack) -> (r: IndexPack) ensures r == *p, { unimplemented!() }
+
+// ---- the memo tables of RewriteVisitor (std BTreeMap / BTreeSet as map / set) ----
+pub struct BTreeMap<K, V> { pub m: Ghost<Map<K, V>> }
+impl<K, V> BTreeMap<K, V> {
+    pub open spec fn view(&self) -> Map<K, V> { self.m@ }
+    #[verifier::external_body]
+    pub fn get(&self, k: &K) -> (r: Option<&V>)
+        ensures self@.dom().contains(*k) ==> (r matches Some(v) && *v == self@[*k]), !self@.dom().contains(*k) ==> r is None,
+    { unimplemented!() }
+    #[verifier::external_body]
+    pub fn insert(&mut self, k: K, v: V) -> (r: Option<V>) ensures final(self)@ == old(self)@.insert(k, v), { unimplemented!() }
+}
+pub struct BTreeSet<K> { pub s: Ghost<Set<K>> }
+impl<K> BTreeSet<K> {
+    pub open spec fn view(&self) -> Set<K> { self.s@ }
+    #[verifier::external_body]
+    pub fn contains(&self, k: &K) -> (r: bool) ensures r == self@.contains(*k), { unimplemented!() }
+    #[verifier::external_body]
+    pub fn insert(&mut self, k: K) -> (r: bool) ensures final(self)@ == old(self)@.insert(k), { unimplemented!() }
+}
+pub struct Summary { pub _opaque: u64 }
+// statistics of the rewritten trees (files / dirs / size per tree id): not part of the property
+#[verifier::external_body]
+pub fn vsummary_update(m: &mut BTreeMap<TreeId, Summary>, id: TreeId, node: &Node) { unimplemented!() }
+#[verifier::external_body]
+pub fn vsummary_record(m: &mut BTreeMap<TreeId, Summary>, id: TreeId, new_id: Option<TreeId>, tree: &Tree) { unimplemented!() }
+// what the memo tables answer for (path, id): a result is reused only for the very path it was computed for
+pub open spec fn memo_answer(u: Set<(PathBuf, TreeId)>, c: Map<(PathBuf, TreeId), TreeId>, p: PathBuf, id: TreeId) -> ModifierAction {
+    if u.contains((p, id)) { ModifierAction::Change(ModifierChange::Unchanged) }
+    else if c.dom().contains((p, id)) { ModifierAction::Change(ModifierChange::Changed(c[(p, id)])) }
+    else { ModifierAction::Process(id) }
+}
